@@ -1,12 +1,4 @@
-import Driver.Util
+import Driver.HeapCommon
 import Driver.Loop
-open Lean Drv
 
-namespace DrvC03
-
-/-- Stub: replaced when the model of C03 is built. -/
-def handle (_j : Json) : Except String Json := throw "model of C03 not built"
-
-end DrvC03
-
-def main : IO Unit := Drv.runLoop DrvC03.handle
+def main : IO Unit := Drv.runLoop DrvHeap.handle
